@@ -91,3 +91,18 @@ prop("C06",
           "timeout": {"quick": 1500, "thorough": 7200}},
          {"name": "asan", "build": "asan", "bin": "c06"},
      ])
+
+prop("C10",
+     technique="runtime monitoring: pointer/length/content oracle + counting-allocator monitor over all (N, L, format, ownership) combinations; Miri (Stacked Borrows, leak check) and ASan/LSan stages",
+     level_text=("Every channel count N in 1..=32 x every length L in 0..=3N+2 (quick) / 0..=8N+5 plus 10^4-10^5-sample slices (thorough) x six sample formats x shared, "
+                 "mutable and boxed views through every public route: Some iff N | L, same memory, frame[i][c] == sample[iN+c], writes visible both ways, exact "
+                 "inverse, zero heap traffic on boxed success and exactly one release on failure; in-place ops for every length pair <= 9 (result or panic-untouched). "
+                 "Miri and ASan/LSan run the same monitor for aliasing, bounds and leaks. Exploration: L is unbounded."),
+     level_note="trusted: the counting global allocator (self-tested each run with a positive and a negative control); Miri's Stacked Borrows model and LSan for the unsafe reinterpretations",
+     rule=("cases are (format, N, L, ownership mode, route) for views and (op, la, lb) for in-place ops, enumerated; non-trivial = L not divisible by N or N >= 3 (the "
+           "test-suite only uses N<=2 on divisible lengths) and every la != lb pair; distinct by hash of (format, N, L) / (la, lb)"),
+     stages=[
+         {"name": "main", "build": "fast", "bin": "c10"},
+         {"name": "miri", "build": "miri-sb", "bin": "c10", "shards": {"quick": 5, "thorough": 16}, "timeout": {"quick": 1500, "thorough": 7200}},
+         {"name": "asan", "build": "asan", "bin": "c10"},
+     ])
